@@ -51,6 +51,7 @@ type TCPConn struct {
 
 	// Ledger: every byte this endpoint wrote / read, and endpoint events.
 	Wrote   []byte
+	SrvEnd  bool // this end is held by the code under test (accepted by its listener, or dialed by it)
 	NRead   int64
 	Events  []EndEvent
 	KeepLog bool
@@ -141,6 +142,13 @@ func (c *TCPConn) Read(p []byte) (int, error) {
 			raceRead()
 			simrt.Log("tcp:read", int64(c.Rec.ID)*2+int64(c.side), int64(n))
 			wakeAll(&c.peer.writers)
+			if c.rbuf == nil && c.rfin && c.SrvEnd && c.w.EOFWithData > 0 && simrt.S.Fault.Permille(c.w.EOFWithData) {
+				// unusual but legal for an io.Reader (a kernel socket never does it; a
+				// framed or in-memory transport installed as the target dialer may): the
+				// last bytes and the end of the stream in one call
+				simrt.Fault("read_returns_data_with_eof")
+				return n, io.EOF
+			}
 			return n, nil
 		}
 		if c.rfin {
@@ -489,6 +497,7 @@ func (l *TCPListener) AcceptTCP() (*TCPConn, error) {
 			}
 			c := l.backlog[0]
 			l.backlog = l.backlog[1:]
+			c.SrvEnd = !l.Foreign
 			c.Rec.Accepted = true
 			l.Accepts++
 			simrt.Log("tcp:accept", int64(c.Rec.ID), 0)
@@ -687,6 +696,7 @@ func (d *TCPDialer) dial(ctx context.Context, addr string) (*TCPConn, error) {
 		}
 		if err == nil {
 			rec.IP = ip
+			c.SrvEnd = true
 			// the caller does not resume in the same instant the connect completes:
 			// whatever else is runnable (a cancellation, a shutdown) may come first
 			simrt.Yield()
